@@ -81,14 +81,20 @@ def run_shard(spec, rep):
             t = rng.uniform(200, 500)
             if v.type != "antoine" or abs(t + v.c) > 20:
                 break
+        if rng.random() < 0.3:
+            # few keys: the FIRST request a short-lived component ever sees is made at one of four temperatures (objects die
+            # between cases, addresses and temperatures recur)
+            tg = rng.choice(gen.TEMPERATURE_GRID)
+            if v.type != "antoine" or abs(tg + v.c) > 20:
+                t = tg
         t0, t1, t2 = (rng.uniform(200, 500) for _ in range(3))
         case = {"index": index, "component": gen.describe_component(comp), "T": t, "T012": [t0, t1, t2]}
         rep.case(case, cls=cls)
         try:
+            hv = comp.get_vaporisation_heat(t)  # the very first call on this object
             if not all(0 < comp.get_vapor_pressure(t + d) < float("inf") for d in (-H, 0.0, H)):
                 rep.count("skipped_vapour_pressure_out_of_float_range")
                 continue
-            hv = comp.get_vaporisation_heat(t)
             ref = R * t * t * _richardson(lambda x: math.log(comp.get_vapor_pressure(x)), t, H) / 1000
             # the numerical derivative carries the round-off of ln Psat divided by the step (matters where Hvap passes through 0)
             noise = 256 * 2.0**-52 * (1 + abs(math.log(comp.get_vapor_pressure(t)))) / H * R * t * t / 1000
